@@ -21,6 +21,8 @@ BUILD_OUT = "proj/bld"
 UNKNOWN_FLAGS = ["-fweird", "-Wall", "-std=c99", "-march=native", "-fPIC", "-pthread", "-Wextra"]
 UNKNOWN_COMPILERS = ["mycc", "xlc9", "tool-cc", "/opt/bin/zzcc"]
 KNOWN_COMPILERS = ["gcc", "g++", "clang", "clang++", "icx", "icpx", "/usr/bin/gcc", "/opt/llvm/bin/clang++", "nvcc"]
+BENIGN_PRAGMAS = ["#pragma omp parallel for", "#pragma GCC diagnostic push", "#pragma unroll 4"]
+PASS_MACROS = ["__CUDA_ARCH__", "__SYCL_DEVICE_ONLY__", "_OPENMP", "__NVCC__"]
 UNKNOWN_DIRECTIVES = ["#frobnicate x", "#ident \"v1\"", "#assert machine(x)", "#sccs \"x\"",
                       "#import_x y"]
 EXEMPT_DIRECTIVES = ["#line 7", "#warning careful", "#error never", "#"]
@@ -57,6 +59,19 @@ def draw_cfg(r, profile):
         "p_forced_rel": r.choice([0.0, 0.5]),
         "cpp": r.random() < 0.3,
     }
+    if profile in ("c04", "c08", "c18", "c15") and r.random() < 0.2:
+        # "project style": what real build systems produce - every command of a platform carries the
+        # same flags, a config header is force-included everywhere, sources sit together, headers use
+        # #pragma once and provide feature macros that the sources test
+        c.update({"project_style": True, "p_uniform": 1.0, "p_forced": r.choice([0.6, 1.0]), "p_once": 0.8,
+                  "p_guard": 0.1, "p_sigdef": 0.8, "p_probe": 0.6, "p_define": 0.2, "p_include": 0.4,
+                  "n_src": r.choice([2, 3, 4]), "tus_max": r.choice([1, 2]), "n_hdr": r.choice([1, 2, 3])})
+    if profile in ("c04", "c08", "c14", "c18") and r.random() < 0.25:
+        # mixed-language code base. Every shared header stays inside the code base and is never
+        # excluded, so the open finding D6 (out-of-tree header parsed in the language of its first
+        # includer) cannot be reached.
+        c["fortran"] = True
+        c["ext_dir"] = False
     if profile == "c18":
         c["faults"] = {
             "missing_include": r.choice([0.0, 0.1, 0.2, 0.35]),
@@ -112,7 +127,10 @@ class Gen:
         self.r = r
         self.cfg = cfg
         self.uid = 0
-        self.src_vals = {m: str(r.choice([0, 1, 2])) for m in SRC_MACROS}
+        # world-wide values of the source-defined macros: numbers, chains through -D macros, and
+        # (mutually) self-referential definitions (legal C: the inner name is not expanded again)
+        self.src_vals = {m: r.choice(["0", "1", "2", "1", "2", "V", "W", m, SRC_MACROS[1 - i]])
+                         for i, m in enumerate(SRC_MACROS)}
         self.missing_pool = ["missing_0.h", "missing_1.h", "gone/missing_2.h"]
         self.extra_files = {}
 
@@ -210,7 +228,11 @@ class Gen:
                     m = r.choice(SRC_MACROS + SRC_MACROS + FLAG_MACROS + NUM_MACROS)
                     out.append(["cond", [["ifdef", m, [["code", 1]]], ["else", None, [["code", 1]]]]])
             elif k < 0.30 + pd + pi + 0.06:
-                out.append(r.choice([["blank"], ["comment"], ["bcomment", r.randint(0, 2)]]))
+                out.append(r.choice([["blank"], ["comment"], ["bcomment", r.randint(0, 2)],
+                                     ["directive", r.choice(BENIGN_PRAGMAS)]]))
+            elif k < 0.30 + pd + pi + 0.09:
+                # code that depends on a macro only a compiler pass / mode defines
+                out.append(["cond", [["ifdef", r.choice(PASS_MACROS), [["code", 1]]], ["else", None, [["code", 1]]]]])
             elif depth < self.cfg["depth"]:
                 chain = []
                 kind = r.choice(["if", "if", "ifdef", "ifndef"])
@@ -260,6 +282,10 @@ class Gen:
             for path in h["paths"]:
                 tag = path.replace("/", "_").replace(".", "_").upper()
                 body = [["code", 1]] + self.items(0, later, [r.randint(1, cfg["budget"])])
+                if cfg.get("fortran") and r.random() < 0.7:
+                    # a C comment at the top of a header shared with Fortran units (a licence banner):
+                    # what it is depends on the language the header is read in
+                    body.insert(0, r.choice([["comment"], ["bcomment", 1]]))
                 if r.random() < cfg.get("p_sigdef", 0.0):
                     # a header that provides a feature macro other files test after including it
                     body.insert(1, self.define_items()[0] if r.random() < 0.5 else
@@ -284,9 +310,20 @@ class Gen:
         srcs = []
         for i in range(cfg["n_src"]):
             d = r.choice(["", "d1", "d2"])
+            if cfg.get("project_style") and i:
+                d = os.path.relpath(os.path.dirname(srcs[0]), ROOT)
+                d = "" if d == "." else d
             ext = ".cpp" if (cfg["cpp"] and r.random() < 0.4) else ".c"
+            lang = "c"
+            if cfg.get("fortran") and r.random() < 0.4:
+                # free-form Fortran translation units sharing the (C) headers of the code base
+                ext, lang = r.choice([".F90", ".f90"]), "f90"
             p = os.path.join(ROOT, d, f"s{i}{ext}") if d else os.path.join(ROOT, f"s{i}{ext}")
-            files[p] = {"lang": "c", "items": self.items(0, hdrs, [r.randint(3, cfg["budget"] + 2)])}
+            files[p] = {"lang": lang, "items": self.items(0, hdrs, [r.randint(3, cfg["budget"] + 2)])}
+            srcs.append(p)
+        if cfg["ext_dir"] and r.random() < 0.3:
+            p = os.path.join(EXT_DIR, "xs0.c")
+            files[p] = {"lang": "c", "items": self.items(0, hdrs, [r.randint(2, cfg["budget"])])}
             srcs.append(p)
         # a file nobody compiles or includes
         if r.random() < 0.3:
@@ -318,8 +355,10 @@ class Gen:
         files.update(self.extra_files)
         w = {"root": ROOT, "files": files, "dirs": dirs, "links": links, "platforms": plats,
              "excludes": [], "cbi_config": None}
-        if cfg["excludes"]:
+        if cfg["excludes"] and not cfg.get("fortran"):
             w["excludes"] = [r.choice(["d2/", "*.hpp", "inc2/"])]
+        if cfg["profile"] == "c13":
+            self.twin_entries(w)
         return w
 
     # ----------------------------------------------------------------------------- entries
@@ -359,16 +398,22 @@ class Gen:
         for d in r.sample(inc_pool, r.randint(0, min(3, len(inc_pool)))):
             incs.append(["isystem" if r.random() < cfg["p_isystem"] else "I", d])
         forced = []
-        if hdrs and r.random() < cfg["p_forced"]:
-            h = r.choice(hdrs)
+        for _ in range(2 if (hdrs and r.random() < cfg["p_forced"]) else 0):
+            if forced and r.random() < 0.6:
+                break
+            # (gcc includes a header named by two -include options only once; never repeat a name)
+            cand = [x for x in hdrs if all(os.path.basename(f) != x["name"] for f in forced)]
+            if not cand:
+                break
+            h = r.choice(cand)
             # absolute, so that the compiler's cwd-first rule for -include is not in play ...
             forced.append(os.path.join(TOP, r.choice(h["paths"])))
             # ... or by bare name when only an include directory of this entry can provide it (the name
             # exists neither in the root, nor in a build directory, nor beside the main file)
             via = [d for _, d in incs if os.path.join(d, h["name"]) in h["paths"]]
             beside = {os.path.dirname(p) for p in h["paths"]}
-            if via and r.random() < cfg.get("p_forced_rel", 0.0) and ROOT not in beside \
-                    and os.path.dirname(src) not in beside:
+            cwds = {ROOT, os.path.join(ROOT, "d1"), os.path.join(ROOT, "d2"), os.path.dirname(src)}
+            if via and r.random() < cfg.get("p_forced_rel", 0.0) and not (cwds & beside):
                 forced[-1] = h["name"]
         comp = r.choice(KNOWN_COMPILERS)
         extra = []
@@ -377,6 +422,8 @@ class Gen:
             comp = r.choice(UNKNOWN_COMPILERS)
         if f.get("unknown_flag") and r.random() < f["unknown_flag"]:
             extra = r.sample(UNKNOWN_FLAGS, r.randint(1, 2))
+        if r.random() < 0.15 and os.path.basename(comp) in ("gcc", "g++", "clang", "clang++", "icx", "icpx", "nvcc"):
+            extra = extra + ["-fopenmp"]
         return {"src": src, "defs": defs, "incs": incs, "forced": forced, "compiler": comp,
                 "extra": extra}
 
@@ -549,6 +596,29 @@ class Gen:
         else:
             e["command"] = shlex.join(argv)
         return e
+
+    def twin_entries(self, w):
+        """C13: the same command text run from two sibling directories (d1 and d2 both have an `inc`
+        directory): everything relative in it means something else in the twin."""
+        r = self.r
+        for p in w["platforms"]:
+            for e in list(p["entries"]):
+                d = e.get("directory")
+                if d is None or r.random() > 0.5:
+                    continue
+                for a, b in (("d1", "d2"), ("d2", "d1")):
+                    tail = [a, a + "/", a + "/."]
+                    absd = os.path.join(TOP, ROOT, a)
+                    if d in tail or d == absd:
+                        nd = d.replace(a, b) if d in tail else os.path.join(TOP, ROOT, b)
+                        f = e["file"]
+                        tgt = f[len(TOP) + 1:] if f.startswith(TOP + "/") else \
+                            os.path.normpath(os.path.join(ROOT, b, f))
+                        if tgt in w["files"]:
+                            twin = dict(e)
+                            twin["directory"] = nd
+                            p["entries"].insert(r.randint(0, len(p["entries"])), twin)
+                        break
 
     def add_db_faults(self, ents):
         r, f = self.r, self.cfg["faults"]
